@@ -210,6 +210,10 @@ macro_rules! dim_checks {
                 ensure_eq!(list.iter().product::<$M<S>>(), a * b * c, "product-refs", "product over &A is A B C in order");
                 ensure_eq!(list.iter().cloned().product::<$M<S>>(), a * b * c, "product-values", "product over A is A B C in order");
                 ensure_eq!(list[..1].iter().sum::<$M<S>>(), a, "sum-single", "sum of one matrix");
+                ensure_eq!(list.iter().filter(|_| true).sum::<$M<S>>().rm(), ta.add(&tb).add(&tc), "sum-unsized-refs", "sum over a filtered iterator of &A");
+                ensure_eq!(list.iter().cloned().filter(|_| true).sum::<$M<S>>().rm(), ta.add(&tb).add(&tc), "sum-unsized-values", "sum over a filtered iterator of A");
+                ensure_eq!(list.iter().filter(|_| true).product::<$M<S>>(), a * b * c, "product-unsized-refs", "product over a filtered iterator of &A");
+                ensure_eq!(list.iter().cloned().filter(|_| true).product::<$M<S>>(), a * b * c, "product-unsized-values", "product over a filtered iterator of A");
                 ensure_eq!(list[..1].iter().product::<$M<S>>(), a, "product-single", "product of one matrix");
                 ensure_eq!(list[..0].iter().sum::<$M<S>>(), $M::<S>::zero(), "sum-empty", "empty sum is zero()");
                 ensure_eq!(list[..0].iter().product::<$M<S>>(), $M::<S>::one(), "product-empty", "empty product is one()");
@@ -393,6 +397,33 @@ fn products_f64(d: &mut Draw) -> Outcome {
         _ => (mk_m4(&ta) + mk_m4(&tb)).rm(),
     };
     ensure!(sum == ta.add(&tb), "add-f64", "A + B is not element-wise in f64");
+    // transpose and transpose_self move every element, whatever its size: on A itself, on A scaled down to nothing, and on
+    // a matrix that is symmetric only nearly (mirror entries differing by 1e-30 .. 1e-10 of their size, or by subnormals)
+    {
+        let tiny = (2.0f64).powi(-d.int(40, 1000) as i32);
+        let rel = d.f64_slog(1e-30, 1e-10);
+        let nearly_sym = RM::<f64>::from_fn(n, |c, r| if c < r { ta.e[r][c] * (1.0 + rel) + if d.chance(1, 4) { 5e-324 } else { 0.0 } } else { ta.e[c][r] });
+        for (what, t) in [("A", ta), ("A scaled by a tiny power of two", ta.map(|x| x * tiny)), ("a nearly symmetric matrix", nearly_sym), ("a nearly symmetric tiny matrix", nearly_sym.map(|x| x * tiny))] {
+            let want_t = RM::<f64>::from_fn(n, |c, r| t.e[r][c]);
+            let same = |x: &RM<f64>, y: &RM<f64>| (0..n).all(|c| (0..n).all(|r| x.e[c][r].to_bits() == y.e[c][r].to_bits()));
+            macro_rules! tr {
+                ($mk:ident) => {{
+                    let m = $mk(&t);
+                    ensure!(same(&m.transpose().rm(), &want_t), "transpose-f64", "transpose() of {} does not move element (c,r) to (r,c): {:?}", what, m);
+                    let mut w = m;
+                    w.transpose_self();
+                    ensure!(same(&w.rm(), &want_t), "transpose_self-f64", "transpose_self() of {} differs from transpose(): {:?} -> {:?}", what, m, w);
+                    w.transpose_self();
+                    ensure!(same(&w.rm(), &t), "transpose_self-involution-f64", "transpose_self() twice does not restore {}", what);
+                }};
+            }
+            match n {
+                2 => tr!(mk_m2),
+                3 => tr!(mk_m3),
+                _ => tr!(mk_m4),
+            }
+        }
+    }
     // scalar multiples from either side, difference in place: exact per entry
     let k = d.f64_slog(1e-3, 1e3);
     macro_rules! forms {
@@ -452,7 +483,7 @@ pub fn property() -> Property {
     s.push(sc!("embeddings-Fp", "Fp", embeddings::<Fp>, 2000, 100_000, 64, &[], RULE));
     s.push(sc!("affine_ctors-Q", "Q", affine_ctors::<Q>, 2000, 100_000, 288, &[("generic", 100)], RULE_G));
     s.push(sc!("affine_ctors-Fp", "Fp", affine_ctors::<Fp>, 2000, 100_000, 288, &[], RULE_G));
-    s.push(sc!("products-f64", "f64", products_f64, 6000, 400_000, 160,
+    s.push(sc!("products-f64", "f64", products_f64, 6000, 400_000, 200,
         &[("generic", 100), ("near-identity", 100), ("wide-magnitudes", 100), ("sparse", 100), ("diagonal", 100)], "every generated pair; regimes generic / near-identity / wide magnitudes / sparse / diagonal and aliased operands"));
     Property {
         id: "C01",
